@@ -44,6 +44,10 @@ type Spec struct {
 	// nothing is broken).
 	MinDistinctQuick, MinDistinctThorough int
 	Body                                  func(r *Run)
+	// PostMerge, if set, is called by the parent with the merged counters and
+	// tier; the strings it returns are recorded as inconclusive reasons (for
+	// example "window X was never hit").
+	PostMerge func(tier string, counters map[string]int64) []string
 }
 
 // Violation is one refutation of the property.
@@ -572,6 +576,11 @@ func (r *Run) parent() int {
 		exit = 1
 	}
 
+	if s.PostMerge != nil && rv == nil {
+		for _, why := range s.PostMerge(r.Tier, merged.Counters) {
+			merged.Inconclusive[why]++
+		}
+	}
 	inconcl := []string{}
 	for k, v := range merged.Inconclusive {
 		inconcl = append(inconcl, fmt.Sprintf("%s (x%d)", k, v))
